@@ -97,14 +97,23 @@ fn handle_get<W: Write>(root: &Path, path: &str, w: &mut W) -> std::io::Result<(
     let Some(dst) = safe_join(root, path) else {
         return write_frame(w, &Response::Error("bad path".into()));
     };
-    match (std::fs::metadata(&dst), current_hash(&dst)) {
-        (Ok(m), Some(hash)) => {
-            write_frame(w, &Response::Content { len: m.len(), hash })?;
-            let mut f = std::fs::File::open(&dst)?;
-            std::io::copy(&mut f, w)?;
+    // Length, hash and bytes must all come from ONE open descriptor: a commit
+    // renaming a new file over `dst` between separate looks at the path would
+    // make the reply announce one version and stream another.
+    let opened = std::fs::File::open(&dst).and_then(|mut f| {
+        use std::io::Seek;
+        let mut hasher = blake3::Hasher::new();
+        let len = std::io::copy(&mut f, &mut hasher)?;
+        f.seek(std::io::SeekFrom::Start(0))?;
+        Ok((f, len, *hasher.finalize().as_bytes()))
+    });
+    match opened {
+        Ok((f, len, hash)) => {
+            write_frame(w, &Response::Content { len, hash })?;
+            std::io::copy(&mut f.take(len), w)?;
             w.flush()
         }
-        _ => write_frame(w, &Response::Error("not found".into())),
+        Err(_) => write_frame(w, &Response::Error("not found".into())),
     }
 }
 
